@@ -425,3 +425,22 @@ Lemma main_conc_sequential : forall raises acts h tag cs,
     = fst (step raises acts (base s) (Subscribe cs []))
     /\ queue (fst (crun_from raises acts s (CStart true tag cs :: repeat (CAnswer ROk) (length (runs cs))))) = [].
 Proof. intros. apply seq_subscribe; assumption. Qed.
+
+(* the unsubscribe / subscribe race of the unchanged code: the caller's LAST call for 1.2 is subscribe, the accessory
+   has been told ev:true for it, yet it is not in the subscription set (so the next reconnect will not ask for it) *)
+Definition race_hist : list cevent :=
+  [ CConnUp []; CStart true 1 [(1, 2)%N]; CAnswer ROk;
+    CStart false 2 [(1, 2)%N];          (* unsubscribe(1.2): its ev:false request is on the wire *)
+    CStart true 3 [(1, 2)%N];           (* subscribe(1.2) again: queued behind it *)
+    CAnswer ROk;                        (* ev:false answered: unsubscribe completes and forgets 1.2 *)
+    CAnswer ROk ].                      (* ev:true answered *)
+
+Lemma main_conc_race : forall raises acts,
+    exists h c, last_call c h None = Some true
+                /\ (let s := fst (crun raises acts h) in
+                    ~ In c (subs (base s)) /\ In c (acc s)
+                    /\ sup (base s) = true /\ conn (base s) = true /\ queue s = []).
+Proof.
+  intros raises acts. exists race_hist, (1, 2)%N. split; [reflexivity|].
+  cbn. repeat split; auto.
+Qed.
